@@ -97,7 +97,8 @@ def build(ctx):
     ctx.explanation = ("P: the unwrapping loop of unit_cell_molecules on symbolic instances (3 unit-cell atoms, symbolic integer edge cells, both predecessor orientations): for every "
                        "stored edge (i<j, cell) of the component shift_j - shift_i == cell, i.e. bonded atoms sit at their bonding image after unwrapping; every array handed to "
                        "Molecule.from_arrays is indexed by the same node order; the recentring translation is an integer lattice vector that puts the centre of mass in [0,1) "
-                       "(for centres above -7 cells, a stated precondition); the edge convention of unit_cell_connectivity (neighbour index modulo n_uc, i<j) by frame obligations; "
+                       "(for centres above -7 cells, a stated precondition); unit_cell_connectivity itself executed on symbolic two-atom instances with an exact model of the KD-tree query (stored edges are exactly the "
+                       "bonded pairs i<j with the length and cell of the bonding image, also under a caller-supplied radius override); Molecule.translated returns a fresh shifted copy; "
                        "symmetry_unique_molecules compares atom lists with a shape-safe equality. The graph-theoretic content (partition, wholeness, count) needs scipy's "
                        "csgraph and KD-tree and is a bounded stand-in on generated molecular crystals (B).")
     ctx.assumptions += ["scipy csgraph.connected_components / breadth_first_order (each node of the component once, predecessor earlier in the order), cKDTree exactness",
